@@ -27,6 +27,10 @@ const (
 	sigIdAll = "inlist-fractional-on-int-primary-key-returns-all-rows"
 )
 
+// matchKnown attributes a minimised violation found by the core exploration to a known class (none so far
+// besides F9, which is matched before minimisation).
+func matchKnown(sh *shape, mp *g6blib.Expr, msc *g6blib.Schema, mo *outcome) string { return "" }
+
 var tableShape = func(t string) *shape {
 	return &shape{name: "table", clause: "WHERE", ids: "x0.id", from: "FROM " + t + " x0"}
 }
